@@ -295,4 +295,51 @@ Section Customs.
     - lia.
     - reflexivity.
   Qed.
+
+  (* ------------------------------------------------------------------ ExtensionObject *)
+  Hypothesis Hxml : okt xml_body_ty.
+  Hypothesis Hlk : forall tid t, lookup_expnodeid reg tid = Some t -> okt (TPtr t).
+
+  Lemma run_sub_bnd_at : forall a bt body r, okt bt -> ln body <= L ->
+    bnd_at a (ar * ln body + cr) er false (run_sub (rec bt) body) r.
+  Proof.
+    intros a bt body r Hok Hb. pose proof (Hrec bt Hok body Hb) as H. unfold bnd_at in *. unfold run_sub.
+    destruct (rec bt body) as [x r' al|err al|al|]; try exact I.
+    - destruct H as [H1 H2]. split; [cbn [sb]; lia|]. rewrite N.sub_diag, N.mul_0_r, N.add_0_l.
+      pose proof (N.mul_le_mono_l (ln body - ln r') (ln body) ar ltac:(lia)). lia.
+    - pose proof (N.le_0_l (a * ln r)). lia.
+    - pose proof (N.le_0_l (a * ln r)). lia.
+  Qed.
+
+  Lemma dec_extobj_bnd : bnd L (ar + 1) (145 + cr) er true (dec_extobj reg rec).
+  Proof.
+    unfold bnd. intros bs HL. unfold dec_extobj.
+    eapply bnd_at_mono with (a := ar + 1) (e := er); [|apply N.le_refl| |apply N.le_refl|].
+    - step (bnd_tick L (ar + 1) er 32). step (dec_expnodeid_bnd (ar + 1) er ltac:(lia)). step (read_byte_bnd L (ar + 1) er).
+      eapply bnd_at_mono with (c := cr) (s := false); [|apply N.le_refl|apply N.le_refl|apply N.le_refl|intros H; exact H].
+      destruct (x1 =? 0)%Z; [eapply bnd_at_mono; [fin|apply N.le_refl|apply N.le_0_l|apply N.le_refl|auto]|].
+      eapply bnd_at_mono with (c := 0 + cr) (s := true || false); [|apply N.le_refl|lia|apply N.le_refl|auto].
+      step (read_u_bnd L (ar + 1) er 4).
+      destruct ((x2 =? 0)%Z || (x2 =? null32)%Z); [eapply bnd_at_mono; [fin|apply N.le_refl|apply N.le_0_l|apply N.le_refl|auto]|].
+      assert (HLr2 : ln r2 <= L) by lenL.
+      (* the body: what decoding it allocates is charged to the bytes of the body *)
+      eapply bnd_at_mono; [apply (bnd_at_bind_post _ _ 1 ar 0 cr er (1 <=? x2)%Z false)|lia|lia|apply N.le_refl|auto].
+      + apply (read_n_bnd L 1 er x2 r2 HLr2).
+      + intros body rb alb Eb Lrb.
+        assert (Hbody : ln r2 - ln rb = ln body /\ ln body <= L).
+        { unfold read_n in Eb. destruct (x2 <? 0)%Z; [discriminate|]. destruct (blen r2 <? x2)%Z eqn:El; [discriminate|].
+          inversion Eb; subst. apply Z.ltb_ge in El. unfold ln, blen in *. rewrite firstn_length, skipn_length. split; lia. }
+        destruct Hbody as [Hu Hb]. rewrite Hu.
+        assert (Hsub : forall bt, okt bt ->
+                  bnd_at 1 (ar * ln body + cr) er false
+                    (bind (run_sub (rec bt) body) (fun v => ret (VExtObj x1 (Some x0) (Some v)))) rb).
+        { intros bt Hok. eapply bnd_at_mono; [eapply bnd_at_bind; [apply (run_sub_bnd_at 1 bt body rb Hok Hb)|intros v rv alv Ev Lrv; fin]
+                                            |apply N.le_refl|lia|apply N.le_refl|auto]. }
+        destruct (x1 =? 2)%Z; [apply Hsub; exact Hxml|].
+        destruct (lookup_expnodeid reg x0) as [t|] eqn:Elk; [apply Hsub; apply (Hlk x0 t Elk)|].
+        eapply bnd_at_mono; [fin|apply N.le_refl|apply N.le_0_l|apply N.le_refl|auto].
+      + discriminate.
+    - lia.
+    - reflexivity.
+  Qed.
 End Customs.
